@@ -612,3 +612,293 @@ Proof.
   apply rs_loop_spec; [exact Hb|exact Hef|lia|intros []|].
   unfold rs_measure. destruct (rerr b); lia.
 Qed.
+
+(* ---------- collectFragments / ReadString ---------- *)
+
+Lemma collect_loop_S f d full b : collect_loop (S f) d full b =
+  match read_slice d b with
+  | RSPanic p => CFPanic p
+  | RSOutOfFuel => CFOutOfFuel
+  | RSOk frag None b' => CFOk full frag None b'
+  | RSOk frag (Some EBufferFull) b' => collect_loop f d (full ++ [frag]) b'
+  | RSOk frag (Some e) b' => CFOk full frag (Some e) b'
+  end.
+Proof. reflexivity. Qed.
+
+(* What one ReadString call does, in terms of T: it returns a prefix [out] of T.
+   err = nil: [out] ends with the first delimiter of T.  Otherwise [out] is everything there was
+   (no delimiter in it) and either the script is exhausted and err is its final error, or the
+   script served maxConsecutiveEmptyReads empty reads in a row and err = io.ErrNoProgress. *)
+Definition cf_post (d : ascii) (b : reader) (out : str) (e : option error) (b' : reader) : Prop :=
+  bounds b' /\ length (buf b') = length (buf b) /\ ferr (rsrc b') = ferr (rsrc b) /\
+  T b = out ++ T b' /\
+  match e with
+  | None => (exists body, out = body ++ [d] /\ ~ In d body) /\ err_final b' /\
+            (progress_ok (chunks (rsrc b)) -> progress_ok (chunks (rsrc b')))
+  | Some e => ~ In d out /\ rerr b' = None /\ bufd b' = [] /\
+      ( (e = ferr (rsrc b) /\ exhausted (rsrc b'))
+      \/ (e = ENoProgress /\ ~ progress_ok (chunks (rsrc b))) )
+  end.
+
+Lemma collect_loop_spec d : forall fuel full b,
+  bounds b -> err_final b -> ferr (rsrc b) <> EBufferFull -> length (T b) < fuel ->
+  exists fullr frag e b', collect_loop fuel d full b = CFOk fullr frag e b' /\
+    exists out, concat fullr ++ frag = concat full ++ out /\ cf_post d b out e b'.
+Proof.
+  induction fuel as [|f IH]; intros full b Hb Hef Hne Hfuel; [lia|].
+  destruct (read_slice_spec d b Hb Hef) as (line & e & b1 & Hrun & Hb1 & Hl1 & Hf1 & HT & Hcase).
+  rewrite collect_loop_S, Hrun. destruct e as [e|].
+  - destruct Hcase as (Hnd & He1 & Hbd1 & Hk).
+    assert (Hfinal : e <> EBufferFull ->
+              ((e = ferr (rsrc b) /\ exhausted (rsrc b1)) \/ (e = ENoProgress /\ ~ progress_ok (chunks (rsrc b)))) ->
+              exists fullr frag e' b',
+                match e with
+                | EBufferFull => collect_loop f d (full ++ [line]) b1
+                | _ => CFOk full line (Some e) b1
+                end = CFOk fullr frag e' b' /\
+                exists out, concat fullr ++ frag = concat full ++ out /\ cf_post d b out e' b').
+    { intros Hnbf Hk'. exists full, line, (Some e), b1.
+      split; [destruct e; try reflexivity; contradiction|].
+      exists line. split; [reflexivity|]. unfold cf_post.
+      split; [exact Hb1|]. split; [exact Hl1|]. split; [exact Hf1|]. split; [exact HT|].
+      split; [exact Hnd|]. split; [exact He1|]. split; [exact Hbd1|exact Hk']. }
+    destruct Hk as [(-> & Hlen & Hpr)|[(-> & Hex)|(-> & Hnp)]].
+    + (* a full buffer without delimiter: keep it, go round again *)
+      destruct (IH (full ++ [line]) b1 Hb1 (err_final_none b1 He1)) as (fullr & frag & e' & b' & Hrun' & out' & Hcat & Hb' & Hl' & Hf' & HT' & Hcase').
+      { rewrite Hf1. exact Hne. }
+      { apply (f_equal (@length ascii)) in HT. rewrite app_length in HT. destruct Hb as (_ & _ & Hc). lia. }
+      exists fullr, frag, e', b'. split; [exact Hrun'|].
+      exists (line ++ out'). split; [rewrite Hcat, concat_app; cbn [concat]; rewrite app_nil_r, !app_assoc; reflexivity|].
+      unfold cf_post. split; [exact Hb'|]. split; [lia|]. split; [congruence|].
+      split; [rewrite HT, HT', app_assoc; reflexivity|].
+      destruct e' as [e'|].
+      * destruct Hcase' as (H1 & H2 & H3 & H4). split; [apply not_in_app; assumption|].
+        split; [exact H2|]. split; [exact H3|].
+        destruct H4 as [(E1 & E2)|(E1 & E2)].
+        -- left. split; [congruence|exact E2].
+        -- right. split; [exact E1|]. intros H. exact (E2 (Hpr H)).
+      * destruct Hcase' as ((body & Hbody & Hnb) & H2 & H3).
+        split; [exists (line ++ body); split; [rewrite Hbody, app_assoc; reflexivity|apply not_in_app; assumption]|].
+        split; [exact H2|]. intros H. exact (H3 (Hpr H)).
+    + apply Hfinal; [exact Hne|]. left. split; [reflexivity|exact Hex].
+    + apply Hfinal; [discriminate|]. right. split; [reflexivity|exact Hnp].
+  - exists full, line, None, b1. split; [reflexivity|]. exists line. split; [reflexivity|].
+    unfold cf_post. split; [exact Hb1|]. split; [exact Hl1|]. split; [exact Hf1|]. split; [exact HT|exact Hcase].
+Qed.
+
+Lemma T_length b : bounds b -> length (T b) = buffered_n b + length (stream (rsrc b)).
+Proof. intros Hb. unfold T. rewrite app_length, (bufd_length b Hb). reflexivity. Qed.
+
+(* ReadString: never a panic, never out of fuel; and what it returns *)
+Theorem read_string_b_spec d b : wf b ->
+  exists out e b', read_string_b d b = RSOk out e b' /\ cf_post d b out e b'.
+Proof.
+  intros (Hb & Hef & Hne). unfold read_string_b, collect_fragments.
+  destruct (collect_loop_spec d (collect_fuel b) [] b Hb Hef Hne) as (fullr & frag & e & b' & -> & out & Hcat & Hpost).
+  { unfold collect_fuel. rewrite (T_length b Hb). lia. }
+  exists out, e, b'. split; [rewrite Hcat; reflexivity|exact Hpost].
+Qed.
+
+Lemma cf_post_wf d b out e b' : wf b -> cf_post d b out e b' -> wf b'.
+Proof.
+  intros (Hb & Hef & Hne) (Hb' & _ & Hf' & _ & Hcase). split; [exact Hb'|].
+  split; [|rewrite Hf'; exact Hne].
+  destruct e as [e|].
+  - destruct Hcase as (_ & He & _). exact (err_final_none b' He).
+  - destruct Hcase as (_ & He & _). exact He.
+Qed.
+
+(* ---------- 1. reachable states ---------- *)
+
+(* the states a reader goes through: NewReaderSize, then ReadString calls with any delimiters *)
+Inductive reachable (rd : source) (size : nat) : reader -> Prop :=
+| reach_new : reachable rd size (new_reader_size rd size)
+| reach_call d b out e b' :
+    reachable rd size b -> read_string_b d b = RSOk out e b' -> reachable rd size b'.
+
+Lemma new_reader_facts rd size :
+  bounds (new_reader_size rd size) /\ rerr (new_reader_size rd size) = None /\
+  bufd (new_reader_size rd size) = [] /\ T (new_reader_size rd size) = stream rd /\
+  length (buf (new_reader_size rd size)) = Nat.max size min_read_buffer_size.
+Proof.
+  unfold new_reader_size, bounds, T, bufd, sub, make_bytes. cbn [buf rpos wpos rerr rsrc].
+  rewrite repeat_length. unfold min_read_buffer_size. cbn [Nat.sub firstn app].
+  repeat split; lia.
+Qed.
+
+Lemma new_reader_wf rd size : ferr rd <> EBufferFull -> wf (new_reader_size rd size).
+Proof.
+  intros Hne. destruct (new_reader_facts rd size) as (Hb & He & _).
+  split; [exact Hb|]. split; [exact (err_final_none _ He)|exact Hne].
+Qed.
+
+Theorem reachable_invariant rd size b : ferr rd <> EBufferFull -> reachable rd size b ->
+  wf b /\ length (buf b) = Nat.max size min_read_buffer_size /\ ferr (rsrc b) = ferr rd.
+Proof.
+  intros Hne Hr. induction Hr as [|d b out e b' Hr IH Hcall].
+  - split; [exact (new_reader_wf rd size Hne)|]. split; [|reflexivity].
+    exact (proj2 (proj2 (proj2 (proj2 (new_reader_facts rd size))))).
+  - destruct IH as (Hwf & Hlen & Hfe).
+    destruct (read_string_b_spec d b Hwf) as (out' & e' & b'' & Hrun & Hpost).
+    rewrite Hcall in Hrun. injection Hrun as -> -> ->.
+    split; [exact (cf_post_wf d b _ _ _ Hwf Hpost)|].
+    destruct Hpost as (_ & Hl & Hf & _). split; congruence.
+Qed.
+
+(* r <= w <= len(buf), len(buf) = max(size, 16) >= 16 *)
+Theorem reachable_bounds rd size b : ferr rd <> EBufferFull -> reachable rd size b ->
+  rpos b <= wpos b /\ wpos b <= length (buf b) /\ length (buf b) = Nat.max size min_read_buffer_size /\
+  min_read_buffer_size <= length (buf b).
+Proof.
+  intros Hne Hr. destruct (reachable_invariant rd size b Hne Hr) as (((H1 & H2 & _) & _) & H3 & _).
+  split; [exact H1|]. split; [exact H2|]. split; [exact H3|]. rewrite H3. apply Nat.le_max_r.
+Qed.
+
+(* every ReadString call on a reachable state returns: no panic, never out of fuel *)
+Theorem reachable_read_string_returns rd size b d : ferr rd <> EBufferFull -> reachable rd size b ->
+  exists out e b', read_string_b d b = RSOk out e b' /\ reachable rd size b'.
+Proof.
+  intros Hne Hr. destruct (reachable_invariant rd size b Hne Hr) as (Hwf & _).
+  destruct (read_string_b_spec d b Hwf) as (out & e & b' & Hrun & _).
+  exists out, e, b'. split; [exact Hrun|]. exact (reach_call rd size d b out e b' Hr Hrun).
+Qed.
+
+(* fill is called by ReadSlice only with room in the buffer and b.err == nil; then it does not panic *)
+Theorem fill_never_panics b : wf b -> rerr b = None -> buffered_n b < length (buf b) ->
+  exists b', fill b = FillOk b' /\ bounds b' /\ rpos b' = 0 /\ T b' = T b.
+Proof.
+  intros (Hb & _) He Hroom.
+  destruct (fill_spec b Hb Hroom He) as (b' & Hf & Hr & Hb' & _ & _ & data & Hbd & Hst & _).
+  exists b'. split; [exact Hf|]. split; [exact Hb'|]. split; [exact Hr|].
+  unfold T. rewrite Hbd, Hst, app_assoc. reflexivity.
+Qed.
+
+Theorem read_slice_returns d b : wf b ->
+  exists line e b', read_slice d b = RSOk line e b' /\ bounds b' /\ T b = line ++ T b'.
+Proof.
+  intros (Hb & Hef & _). destruct (read_slice_spec d b Hb Hef) as (line & e & b' & Hrun & Hb' & _ & _ & HT & _).
+  exists line, e, b'. split; [exact Hrun|]. split; [exact Hb'|exact HT].
+Qed.
+
+(* ---------- 2. the contract ---------- *)
+
+Lemma T_pending b : T b = bufd b ++ concat (pending (rsrc b)).
+Proof. unfold T. rewrite concat_pending. reflexivity. Qed.
+
+(* With no assumption on the script: what ReadString returns is what the contract says, or
+   io.ErrNoProgress from a script that serves 100 empty reads in a row. *)
+Theorem bufio_read_string_total d b : wf b ->
+  exists out e b', read_string_b d b = RSOk out e b' /\ wf b' /\
+    length (buf b') = length (buf b) /\ ferr (rsrc b') = ferr (rsrc b) /\
+    ( (e = None /\ exists rest cs', read_string d (bufd b) (pending (rsrc b)) = RdLine out rest cs' /\
+                    bufd b' ++ concat (pending (rsrc b')) = rest ++ concat cs')
+    \/ (e = Some (ferr (rsrc b)) /\ read_string d (bufd b) (pending (rsrc b)) = RdEOF out /\
+        bufd b' = [] /\ exhausted (rsrc b') /\ rerr b' = None)
+    \/ (e = Some ENoProgress /\ ~ progress_ok (chunks (rsrc b)) /\ ~ In d out /\
+        T b = out ++ T b' /\ bufd b' = [] /\ rerr b' = None) ).
+Proof.
+  intros Hwf. destruct (read_string_b_spec d b Hwf) as (out & e & b' & Hrun & Hpost).
+  exists out, e, b'. split; [exact Hrun|]. split; [exact (cf_post_wf d b out e b' Hwf Hpost)|].
+  destruct Hpost as (Hb' & Hl' & Hf' & HT & Hcase). split; [exact Hl'|]. split; [exact Hf'|].
+  pose proof (read_string_spec d (pending (rsrc b)) (bufd b)) as R. rewrite <- T_pending in R.
+  destruct e as [e|].
+  - destruct Hcase as (Hnd & He' & Hbd' & [(-> & Hex)|(-> & Hnp)]).
+    + right. left. split; [reflexivity|].
+      assert (HTb : T b = out).
+      { rewrite HT. unfold T. rewrite Hbd', (stream_exhausted _ Hex). apply app_nil_r. }
+      rewrite HTb in R. destruct (read_string d (bufd b) (pending (rsrc b))) as [l rest cs'|rem].
+      * rewrite (cut_not_in d out Hnd) in R. discriminate R.
+      * destruct R as [_ ->]. split; [reflexivity|]. split; [exact Hbd'|]. split; [exact Hex|exact He'].
+    + right. right. split; [reflexivity|]. split; [exact Hnp|]. split; [exact Hnd|].
+      split; [exact HT|]. split; [exact Hbd'|exact He'].
+  - destruct Hcase as ((body & -> & Hnb) & _ & _). left. split; [reflexivity|].
+    rewrite HT, <- app_assoc in R. cbn [app] in R. rewrite (cut_body d body (T b') Hnb) in R.
+    destruct (read_string d (bufd b) (pending (rsrc b))) as [l rest cs'|rem].
+    + injection R as <- HT'. exists rest, cs'. split; [reflexivity|]. rewrite <- T_pending. exact HT'.
+    + destruct R as [R _]. discriminate R.
+Qed.
+
+(* The contract of Model/Framing.v, PROVED of the library code: for every buffer size, every
+   reader state and every script that never serves 100 empty reads in a row. *)
+Theorem bufio_read_string_contract d b : wf b -> progress_ok (chunks (rsrc b)) ->
+  match read_string d (bufd b) (pending (rsrc b)) with
+  | RdLine l rest cs' =>
+      exists b', read_string_b d b = RSOk l None b' /\
+        wf b' /\ progress_ok (chunks (rsrc b')) /\
+        length (buf b') = length (buf b) /\ ferr (rsrc b') = ferr (rsrc b) /\
+        bufd b' ++ concat (pending (rsrc b')) = rest ++ concat cs'
+  | RdEOF rem =>
+      exists b', read_string_b d b = RSOk rem (Some (ferr (rsrc b))) b' /\
+        wf b' /\ length (buf b') = length (buf b) /\ ferr (rsrc b') = ferr (rsrc b) /\
+        bufd b' = [] /\ exhausted (rsrc b') /\ rerr b' = None
+  end.
+Proof.
+  intros Hwf Hpr. destruct (read_string_b_spec d b Hwf) as (out & e & b' & Hrun & Hpost).
+  pose proof (cf_post_wf d b out e b' Hwf Hpost) as Hwf'.
+  destruct (bufio_read_string_total d b Hwf) as (out2 & e2 & b2 & Hrun2 & _ & Hl & Hf & Hk).
+  rewrite Hrun in Hrun2. injection Hrun2 as <- <- <-.
+  destruct Hk as [(-> & rest & cs' & -> & Hrest)|[(-> & -> & Hbd & Hex & He)|(-> & Hnp & _)]].
+  - exists b'. split; [exact Hrun|]. split; [exact Hwf'|].
+    destruct Hpost as (_ & _ & _ & _ & _ & _ & Hpr'). split; [exact (Hpr' Hpr)|].
+    split; [exact Hl|]. split; [exact Hf|exact Hrest].
+  - exists b'. split; [exact Hrun|]. split; [exact Hwf'|]. split; [exact Hl|]. split; [exact Hf|].
+    split; [exact Hbd|]. split; [exact Hex|exact He].
+  - contradiction.
+Qed.
+
+(* the first call on a fresh reader, any size *)
+Corollary bufio_read_string_fresh d rd size : ferr rd <> EBufferFull -> progress_ok (chunks rd) ->
+  match read_string d [] (pending rd) with
+  | RdLine l rest cs' =>
+      exists b', read_string_b d (new_reader_size rd size) = RSOk l None b' /\
+        bufd b' ++ concat (pending (rsrc b')) = rest ++ concat cs'
+  | RdEOF rem =>
+      exists b', read_string_b d (new_reader_size rd size) = RSOk rem (Some (ferr rd)) b' /\
+        bufd b' = [] /\ exhausted (rsrc b')
+  end.
+Proof.
+  intros Hne Hpr. pose proof (bufio_read_string_contract d (new_reader_size rd size) (new_reader_wf rd size Hne) Hpr) as H.
+  destruct (new_reader_facts rd size) as (_ & _ & Hbd & _). rewrite Hbd in H. cbn [rsrc new_reader_size] in H.
+  destruct (read_string d [] (pending rd)) as [l rest cs'|rem].
+  - destruct H as (b' & H1 & _ & _ & _ & _ & H2). exists b'. split; assumption.
+  - destruct H as (b' & H1 & _ & _ & _ & H2 & H3 & _). exists b'. split; [exact H1|split; assumption].
+Qed.
+
+(* independence of the buffer size and of the chunking, said directly: two readers that still
+   have the same bytes to return (however split between buffer and script, whatever the buffer
+   sizes) and the same final error return the same string and error, and again have the same
+   bytes to return *)
+Theorem bufio_read_string_independent d b1 b2 : wf b1 -> wf b2 ->
+  progress_ok (chunks (rsrc b1)) -> progress_ok (chunks (rsrc b2)) ->
+  T b1 = T b2 -> ferr (rsrc b1) = ferr (rsrc b2) ->
+  exists out e b1' b2', read_string_b d b1 = RSOk out e b1' /\ read_string_b d b2 = RSOk out e b2' /\
+                        T b1' = T b2'.
+Proof.
+  intros Hw1 Hw2 Hp1 Hp2 HT Hfe.
+  destruct (read_string_b_spec d b1 Hw1) as (o1 & e1 & b1' & Hr1 & _ & _ & _ & HT1 & Hc1).
+  destruct (read_string_b_spec d b2 Hw2) as (o2 & e2 & b2' & Hr2 & _ & _ & _ & HT2 & Hc2).
+  assert (Hend : forall b o e b', progress_ok (chunks (rsrc b)) -> T b = o ++ T b' ->
+            ~ In d o /\ rerr b' = None /\ bufd b' = [] /\
+            ((e = ferr (rsrc b) /\ exhausted (rsrc b')) \/ (e = ENoProgress /\ ~ progress_ok (chunks (rsrc b)))) ->
+            e = ferr (rsrc b) /\ T b' = [] /\ T b = o /\ ~ In d o).
+  { intros b o e b' Hp HTb (Hn & _ & Hbd & [(-> & Hex)|(_ & Hnp)]); [|contradiction].
+    assert (HT' : T b' = []) by (unfold T; rewrite Hbd, (stream_exhausted _ Hex); reflexivity).
+    split; [reflexivity|]. split; [exact HT'|]. split; [rewrite HTb, HT'; apply app_nil_r|exact Hn]. }
+  destruct e1 as [e1|], e2 as [e2|].
+  - destruct (Hend b1 o1 e1 b1' Hp1 HT1 Hc1) as (-> & Hn1 & Ho1 & _).
+    destruct (Hend b2 o2 e2 b2' Hp2 HT2 Hc2) as (-> & Hn2 & Ho2 & _).
+    exists o1, (Some (ferr (rsrc b1))), b1', b2'. split; [exact Hr1|].
+    split; [rewrite Hr2, Hfe; f_equal; congruence|congruence].
+  - destruct (Hend b1 o1 e1 b1' Hp1 HT1 Hc1) as (_ & _ & Ho1 & Hnd).
+    destruct Hc2 as ((body & -> & Hnb) & _). exfalso. apply Hnd.
+    rewrite <- Ho1, HT, HT2. apply in_or_app. left. apply in_or_app. right. left. reflexivity.
+  - destruct (Hend b2 o2 e2 b2' Hp2 HT2 Hc2) as (_ & _ & Ho2 & Hnd).
+    destruct Hc1 as ((body & -> & Hnb) & _). exfalso. apply Hnd.
+    rewrite <- Ho2, <- HT, HT1. apply in_or_app. left. apply in_or_app. right. left. reflexivity.
+  - destruct Hc1 as ((body1 & -> & Hnb1) & _). destruct Hc2 as ((body2 & -> & Hnb2) & _).
+    rewrite <- app_assoc in HT1, HT2. cbn [app] in HT1, HT2.
+    pose proof (cut_body d body1 (T b1') Hnb1) as C1. rewrite <- HT1, HT, HT2 in C1.
+    rewrite (cut_body d body2 (T b2') Hnb2) in C1. injection C1 as Hb HT'.
+    exists (body1 ++ [d]), None, b1', b2'. split; [exact Hr1|]. split; [rewrite Hr2, Hb; reflexivity|].
+    symmetry. exact HT'.
+Qed.
